@@ -279,6 +279,11 @@ def _symbolic_for(interp, s, frame, state, space):
     written = interp.loop_hints.get(key)
     if written is not None:
         return written(interp, s, frame, st, lo, hi, item_fn)
+    rule = interp.loop_hints.get((frame.fname, "for", "*"))
+    if rule is not None:
+        # a rule offered for every symbolic loop of the function; it declines with NotImplemented
+        if rule(interp, s, frame, st, lo, hi, item_fn) is not NotImplemented:
+            return None
     side_mark = len(st.side)
     modified = sorted(_assigned_names(s.body) | _assigned_names([ast.Assign(targets=[s.target], value=ast.Constant(0))]))
     target_names = _assigned_names([ast.Assign(targets=[s.target], value=ast.Constant(0))])
@@ -906,3 +911,152 @@ def _rebind_obj(v, st1, st, iz, last):
 
 def _summarise_multi(interp, s, frame, st, lo, hi, item_fn, normal, i, scal_h, pre_env, pre_heap, where):
     raise EngineError(f"loop body at {where} forks into {len(normal)} paths — needs a written summary or mergeable branches")
+
+
+# ----------------------------------------------------------------------------------------------
+# scatter-store nests
+
+
+def scatter_nest_rule(interp, s, frame, st, lo, hi, item_fn):
+    """Rule for a PERFECT nest of >= 2 symbolic range-loops whose innermost body is loop-free and whose only effect is
+    a store  A[g(iota)] = e(iota)  (e independent of A and of loop-carried state) — e.g. filling a grid through a
+    computed flat index.  The automatic summaries need an affine injective writer; here g may be non-affine and even
+    non-injective, so no closed form is claimed:
+
+      * the innermost body is executed once at symbolic loop indices iota from a havocked content of the touched
+        arrays (its index-bounds side obligations are recorded as usual) and the store is recorded as a *probe*
+        (array, condition, stored value, loop variables, ranges, assumptions) in ``interp.probes`` — contracts state
+        their clauses (range, injectivity, order, stored value) on the probe, i.e. on the real index expression;
+      * the post-state OVER-APPROXIMATES the nest: inside the part of the array the store can reach (the conjuncts
+        of the store condition that do not mention loop variables) the content becomes an unknown function of the
+        position and of the environment the store depends on; elsewhere it is unchanged.
+    Returns NotImplemented when the loop is not such a nest."""
+    loops_ = [s]
+    inner = s
+    while len(inner.body) == 1 and isinstance(inner.body[0], ast.For) and not inner.body[0].orelse:
+        inner = inner.body[0]
+        loops_.append(inner)
+    body = inner.body
+    if len(loops_) < 2 or s.orelse:
+        return NotImplemented
+    for b in body:
+        for n in ast.walk(b):
+            if isinstance(n, (ast.For, ast.While, ast.Return, ast.Break, ast.Continue)):
+                return NotImplemented
+    where = f"{frame.fname}:{s.lineno}"
+    pre_heap = dict(st.heap)
+    pre_env = dict(frame.env)
+    side_mark = len(st.side)
+    loop_vars = []
+    pre_assumptions = []
+
+    def run(heap_in):
+        fr = Frame(frame.module, dict(pre_env), frame.fname)
+        st2 = st.fork()
+        st2.heap = dict(heap_in)
+        st2.events = []
+        del loop_vars[:]
+        with use_state(st2):
+            for k, L in enumerate(loops_):
+                if k == 0:
+                    l, h, itf = lo, hi, item_fn
+                else:
+                    space = _iter_space(interp, L, fr)
+                    if space[0] != "sym":
+                        return None
+                    _, l, h, itf = space
+                v = sv.fresh_int("nest")
+                st2.pc.append(sv.zb(sv.cmp(">=", v, l)))
+                st2.pc.append(sv.zb(sv.cmp("<", v, h)))
+                interp.assign(L.target, itf(v), fr)
+                loop_vars.append((v, l, h))
+            pre_assumptions[:] = st2.all_assumptions()      # before the body: index-bounds requirements are NOT among them
+            outs = interp.exec_block_paths(body, fr, st2)
+        return outs
+    try:
+        outs = run(pre_heap)
+    except Fork:
+        return NotImplemented
+    if outs is None:
+        return NotImplemented
+    normal = [(fr, s2) for fr, s2, out in outs if out[0] == "normal"]
+    if len(normal) != 1 or len(outs) != 1:
+        return NotImplemented
+    st1 = normal[0][1]
+    touched = sorted({sid for sid in st1.heap if sid in pre_heap and st1.heap[sid] is not pre_heap[sid]})
+    if not touched or any(pre_heap[sid].kind != "arr" for sid in touched):
+        return NotImplemented
+    heap_h, arr_h = dict(pre_heap), {}
+    hv_funcs, hv_consts = set(), set()
+    for sid in touched:
+        c = pre_heap[sid]
+        shape = c.meta["shape"]
+        dt = _dtype_of_sid(pre_env, sid, st, c)
+        if dt == "complex" or not shape:
+            return NotImplemented
+        fn = _havoc_array_content(shape, dt, f"N{sid}_")
+        heap_h[sid] = Content("arr", fn, c.meta)
+        arr_h[sid] = (shape, dt, fn)
+        probe = fn(tuple(sv.fresh_int("p") for _ in shape))
+        for t in _terms_of(probe):
+            hv_funcs.add(t.decl().name())
+    del st.side[side_mark:]
+    outs = run(heap_h)
+    normal = [(fr, s2) for fr, s2, out in outs if out[0] == "normal"]
+    if len(normal) != 1 or len(outs) != 1:
+        return NotImplemented
+    fr1, st1 = normal[0]
+    lvz = [v.t for v, _, _ in loop_vars]
+    new_content = {}
+    probes = []
+    for ordinal, (sid, (shape, dt, hfn)) in enumerate(sorted(arr_h.items())):
+        idx = tuple(sv.fresh_int("x") for _ in shape)
+        idz = [x.t for x in idx]
+        postv = _subst_val(st1.heap[sid].data(idx), [])
+        prev = hfn(idx)
+        dec = _decompose_store(postv, prev)
+        if dec is None:
+            return NotImplemented
+        cond, val = dec
+        if _contains_any(cond, hv_consts, hv_funcs) or any(_contains_any(t, hv_consts, hv_funcs) for t in _terms_of(val)):
+            return NotImplemented
+        conj = []
+
+        def flat(c):
+            if z3.is_and(c):
+                for ch in c.children():
+                    flat(ch)
+            else:
+                conj.append(c)
+        flat(z3.simplify(cond))
+        static = [c for c in conj if not any(_mentions(c, v) for v in lvz)]
+        from .sigma import free_consts
+        params = []
+        for t in [cond] + _terms_of(val):
+            for c in free_consts(t):
+                if not any(c.eq(x) for x in lvz + idz + params):
+                    params.append(c)
+        name = f"NEST_{frame.fname.split('.')[-1]}_{s.lineno}_{ordinal}"
+        sort = {"float": z3.RealSort(), "int": z3.IntSort(), "bool": z3.BoolSort()}[dt]
+        G = z3.Function(name, *([z3.IntSort()] * len(shape) + [p.sort() for p in params] + [sort]))
+        pre_fn = pre_heap[sid].data
+        static_c = z3.And(*static) if static else z3.BoolVal(True)
+
+        def fn(ix, G=G, params=params, idz=idz, static_c=static_c, pre_fn=pre_fn):
+            pairs = [(a, sv.znum(b)) for a, b in zip(idz, ix)]
+            c = sv.wrap(z3.simplify(z3.substitute(static_c, *pairs)))
+            return ite(c, lambda: sv.wrap(G(*([sv.znum(b) for b in ix] + params))), lambda: pre_fn(ix))
+        new_content[sid] = Content("arr", A._memo(fn), pre_heap[sid].meta)
+        vname = next((k for k, v in pre_env.items() if isinstance(v, A.Arr) and v.sid == sid), None)
+        probes.append(dict(sid=sid, array=vname, where=where, cond=cond, val=val, idx=list(idx), shape=tuple(shape),
+                           loop_vars=[(v, l, h) for v, l, h in loop_vars], assumptions=list(pre_assumptions),
+                           equalities=_index_equalities(cond, idz), depth=len(loops_)))
+    if not hasattr(interp, "probes"):
+        interp.probes = []
+    interp.probes.extend(probes)
+    for sid, c in new_content.items():
+        st.heap[sid] = c
+        st.events.append(("store", sid, where, list(st.pc)))
+    for name in _assigned_names([s]):
+        frame.env[name] = UnboundAfterLoop(name, where)
+    return None
